@@ -17,7 +17,7 @@ Proof. cbn. repeat split. cbn. lia. Qed.
    their closing - and rCURRENT; their contents, in this order, are exactly the bytes written; the keys are those of
    keys_ok: seconds non-decreasing, within one second <ts>, <ts>.restart-0000, <ts>.restart-0001, ... *)
 Theorem timestamps_stream c crit t0 off ops :
-  tscfg c crit -> tag_free c -> Forall basic_op ops -> Forall tick_ok ops ->
+  tscfg c crit -> tag_ok c -> Forall basic_op ops -> Forall tick_ok ops ->
   (0 <= t0 + ts_e c off)%Z -> (t0 + elapsed ops + ts_e c off < sec_max)%Z -> (N.of_nat (length ops) <= usize_max)%N ->
   let f := wfs (s_w (fst (run (sys0 t0 off) (OStart c :: ops ++ [OStop])))) in
   (names f = [] /\ written ops = [])
@@ -109,7 +109,7 @@ Qed.
 (* without clock ticks every closed file carries the second of the start: the i-th closed file is <t0> for i = 0 and
    <t0>.restart-(i-1) otherwise *)
 Corollary timestamps_stream_no_tick c crit t0 off ops :
-  tscfg c crit -> tag_free c -> Forall basic_op ops -> Forall (fun o => forall dt, o <> OTick dt) ops ->
+  tscfg c crit -> tag_ok c -> Forall basic_op ops -> Forall (fun o => forall dt, o <> OTick dt) ops ->
   (0 <= t0 + ts_e c off < sec_max)%Z -> (N.of_nat (length ops) <= usize_max)%N ->
   let f := wfs (s_w (fst (run (sys0 t0 off) (OStart c :: ops ++ [OStop])))) in
   (names f = [] /\ written ops = [])
@@ -148,7 +148,7 @@ Proof.
 Qed.
 
 Theorem timestamps_stream_pairs c crit t0 off ops :
-  tscfg c crit -> tag_free c -> Forall basic_op ops -> Forall tick_ok ops ->
+  tscfg c crit -> tag_ok c -> Forall basic_op ops -> Forall tick_ok ops ->
   (0 <= t0 + ts_e c off)%Z -> (t0 + elapsed ops + ts_e c off < sec_max)%Z -> (N.of_nat (length ops) <= usize_max)%N ->
   let f := wfs (s_w (fst (run (sys0 t0 off) (OStart c :: ops ++ [OStop])))) in
   (names f = [] /\ written ops = [])
@@ -223,13 +223,15 @@ Lemma ext_c_ok : tscfg ext_c (CSize 100).
 Proof. apply ext_cfg_ok. reflexivity. Qed.
 Lemma ext_c_tag_free : tag_free ext_c.
 Proof. split; vm_compute; reflexivity. Qed.
+Lemma ext_c_tag_ok : tag_ok ext_c.
+Proof. apply tag_free_ok, ext_c_tag_free. Qed.
 
 Example ts_stream_instance :
   exists keys closed cur,
     ts_view ext_c 0 (wfs (s_w (fst (run (sys0 0 0) (OStart ext_c :: ext_ops ++ [OStop]))))) keys closed cur
     /\ concat closed ++ cur = bs "abcdef" /\ keys_ok keys /\ (forall k, In k keys -> (0 <= fst k <= 1)%Z).
 Proof.
-  destruct (timestamps_stream ext_c (CSize 100) 0 0 ext_ops ext_c_ok ext_c_tag_free ext_ops_basic ext_ops_ticks)
+  destruct (timestamps_stream ext_c (CSize 100) 0 0 ext_ops ext_c_ok ext_c_tag_ok ext_ops_basic ext_ops_ticks)
     as [[_ H]|H]; [change (0 <= 0)%Z; lia | change (1 < sec_max)%Z; unfold sec_max; lia | vm_compute; discriminate | discriminate H | exact H].
 Qed.
 
@@ -261,38 +263,82 @@ Example ts_age_dir_utc :
   = [ (bs "srv_a1_r2023-11-14_22-13-20", 0%N, bs "x"); (bs "srv_a1_rCURRENT", 0%N, bs "yz") ].
 Proof. vm_compute. reflexivity. Qed.
 
-(* ------------------------------------------------------------------ the hypotheses are needed *)
-(* (1) tag_free: a basename that contains ".restart-7".  collision_free_infix reads the restart number at the FIRST
-   ".restart-" of the whole file name - here always 7 -, so the second rotation of a second produces <ts>.restart-0008
-   and the third one <ts>.restart-0008 again: the rename overwrites the file closed before.  Of the contents
-   a b c d e only a, d, e survive: b and c are LOST.  (The model mirrors file_spec.rs, name.find(".restart-").) *)
-Definition bad_ops : list op :=
+(* ------------------------------------------------------------------ ".restart-" in the configured name parts *)
+(* A basename that contains ".restart-7".  Before the repair collision_free_infix read the restart number at the FIRST
+   ".restart-" of the whole file name - here always 7 -, so that the second rotation of a second produced <ts>.restart-0008 and
+   the third one <ts>.restart-0008 again, the rename overwrote the file closed before, and of the contents a b c d e only a, d, e
+   survived.  Now it looks for <ts> ++ ".restart-": the counters are 0000, 0001, 0002 and ALL of a, b, c, d, e are kept.  The
+   configuration satisfies tag_ok (it is not tag_free), so this is an instance of the theorem. *)
+Definition rst_ops : list op :=
   [OWrite (bs "a"); OTrigger; OWrite (bs "b"); OTrigger; OWrite (bs "c"); OTrigger; OWrite (bs "d"); OTick 1; OTrigger; OWrite (bs "e")].
-Definition bad_sp1 : file_spec := {| fbase := bs "a.restart-7"; fdisc := None; fts := false; fsfx := Some (bs "log") |}.
-Example tag_in_basename_loses_files :
-  snap_of (fst (run (sys0 0 0) (OStart (ext_cfg bad_sp1 false (CSize 100) None false) :: bad_ops ++ [OStop])))
-  = [ (bs "a.restart-7_r1970-01-01_00-00-00.log", 0%N, bs "a");
-      (bs "a.restart-7_r1970-01-01_00-00-00.restart-0008.log", 0%N, bs "d");
-      (bs "a.restart-7_rCURRENT.log", 0%N, bs "e") ]
-  /\ written bad_ops = bs "abcde"
-  /\ tscfg (ext_cfg bad_sp1 false (CSize 100) None false) (CSize 100)
-  /\ ~ tag_free (ext_cfg bad_sp1 false (CSize 100) None false).
+Definition rst_sp1 : file_spec := {| fbase := bs "a.restart-7"; fdisc := None; fts := false; fsfx := Some (bs "log") |}.
+Definition rst_c1 : config := ext_cfg rst_sp1 false (CSize 100) None false.
+
+Lemma rst_c1_tag_ok : tag_ok rst_c1 /\ ~ tag_free rst_c1.
 Proof.
-  split; [vm_compute; reflexivity|]. split; [vm_compute; reflexivity|]. split; [apply ext_cfg_ok; reflexivity|].
-  intros [H _]. vm_compute in H. discriminate.
+  split.
+  - split; [apply short_no_stamp_tag; vm_compute; lia|]. split; [apply short_no_stamp_tag; vm_compute; lia | vm_compute; reflexivity].
+  - intros [H _]. vm_compute in H. discriminate.
 Qed.
 
-(* a suffix that starts with "restart-": nothing is lost, but the counters start at 0006 instead of 0000 *)
+Example tag_in_basename_keeps_files :
+  snap_of (fst (run (sys0 0 0) (OStart rst_c1 :: rst_ops ++ [OStop])))
+  = [ (bs "a.restart-7_r1970-01-01_00-00-00.log", 0%N, bs "a");
+      (bs "a.restart-7_r1970-01-01_00-00-00.restart-0000.log", 0%N, bs "b");
+      (bs "a.restart-7_r1970-01-01_00-00-00.restart-0001.log", 0%N, bs "c");
+      (bs "a.restart-7_r1970-01-01_00-00-00.restart-0002.log", 0%N, bs "d");
+      (bs "a.restart-7_rCURRENT.log", 0%N, bs "e") ]
+  /\ written rst_ops = bs "abcde"
+  /\ tscfg rst_c1 (CSize 100).
+Proof. split; [vm_compute; reflexivity|]. split; [vm_compute; reflexivity | apply ext_cfg_ok; reflexivity]. Qed.
+
+Lemma rst_c1_ok : tscfg rst_c1 (CSize 100).
+Proof. apply ext_cfg_ok. reflexivity. Qed.
+Lemma rst_ops_basic : Forall basic_op rst_ops.
+Proof. repeat constructor. Qed.
+Lemma rst_ops_ticks : Forall tick_ok rst_ops.
+Proof. repeat (apply Forall_cons; [cbn [tick_ok]; first [exact Logic.I | lia]|]). apply Forall_nil. Qed.
+
+Example tag_in_basename_stream_instance :
+  exists keys closed cur,
+    ts_view rst_c1 0 (wfs (s_w (fst (run (sys0 0 0) (OStart rst_c1 :: rst_ops ++ [OStop]))))) keys closed cur
+    /\ concat closed ++ cur = bs "abcde" /\ keys_ok keys /\ (forall k, In k keys -> (0 <= fst k <= 1)%Z).
+Proof.
+  destruct (timestamps_stream rst_c1 (CSize 100) 0 0 rst_ops rst_c1_ok (proj1 rst_c1_tag_ok) rst_ops_basic rst_ops_ticks)
+    as [[_ H]|H]; [change (0 <= 0)%Z; lia | change (1 < sec_max)%Z; unfold sec_max; lia | vm_compute; discriminate | discriminate H | exact H].
+Qed.
+
+(* ------------------------------------------------------------------ the hypotheses are needed *)
+(* (1) tag_ok, the suffix does not start with "restart-": with the suffix "restart-5" the name of the first file of a second,
+   <ts>.restart-5, still reads like a restart sibling of <ts> with the counter 5 - it contains <ts> ++ ".restart-", and the
+   digits that follow are taken for the counter.  Nothing is lost, but the counters start at 0006 instead of 0000, so the
+   positions in keys_ok are not the ones of the names.  (The model mirrors file_spec.rs after the repair.) *)
 Definition bad_sp2 : file_spec := {| fbase := bs "a"; fdisc := None; fts := false; fsfx := Some (bs "restart-5") |}.
 Example tag_in_suffix_shifts_counters :
-  snap_of (fst (run (sys0 0 0) (OStart (ext_cfg bad_sp2 false (CSize 100) None false) :: bad_ops ++ [OStop])))
+  snap_of (fst (run (sys0 0 0) (OStart (ext_cfg bad_sp2 false (CSize 100) None false) :: rst_ops ++ [OStop])))
   = [ (bs "a_r1970-01-01_00-00-00.restart-0006.restart-5", 0%N, bs "b");
       (bs "a_r1970-01-01_00-00-00.restart-0007.restart-5", 0%N, bs "c");
       (bs "a_r1970-01-01_00-00-00.restart-0008.restart-5", 0%N, bs "d");
       (bs "a_r1970-01-01_00-00-00.restart-5", 0%N, bs "a");
       (bs "a_rCURRENT.restart-5", 0%N, bs "e") ]
-  /\ ~ tag_free (ext_cfg bad_sp2 false (CSize 100) None false).
-Proof. split; [vm_compute; reflexivity|]. intros [_ H]. vm_compute in H. discriminate. Qed.
+  /\ ~ tag_ok (ext_cfg bad_sp2 false (CSize 100) None false).
+Proof. split; [vm_compute; reflexivity|]. intros [_ [_ H]]. vm_compute in H. discriminate. Qed.
+
+(* a suffix that merely contains ".restart-" (not at its start, no time stamp in front of it) is harmless now *)
+Definition rst_sp3 : file_spec := {| fbase := bs "a"; fdisc := None; fts := false; fsfx := Some (bs "x.restart-5") |}.
+Example tag_inside_suffix_harmless :
+  snap_of (fst (run (sys0 0 0) (OStart (ext_cfg rst_sp3 false (CSize 100) None false) :: rst_ops ++ [OStop])))
+  = [ (bs "a_r1970-01-01_00-00-00.restart-0000.x.restart-5", 0%N, bs "b");
+      (bs "a_r1970-01-01_00-00-00.restart-0001.x.restart-5", 0%N, bs "c");
+      (bs "a_r1970-01-01_00-00-00.restart-0002.x.restart-5", 0%N, bs "d");
+      (bs "a_r1970-01-01_00-00-00.x.restart-5", 0%N, bs "a");
+      (bs "a_rCURRENT.x.restart-5", 0%N, bs "e") ]
+  /\ tag_ok (ext_cfg rst_sp3 false (CSize 100) None false) /\ ~ tag_free (ext_cfg rst_sp3 false (CSize 100) None false).
+Proof.
+  split; [vm_compute; reflexivity|]. split.
+  - split; [apply short_no_stamp_tag; vm_compute; lia|]. split; [apply short_no_stamp_tag; vm_compute; lia | vm_compute; reflexivity].
+  - intros [_ H]. vm_compute in H. discriminate.
+Qed.
 
 (* (2) tick_ok: when the clock goes backwards the closing order is no longer the order of the time stamps: "b" is closed
    before "c" but carries the later second; nothing is lost *)
